@@ -66,7 +66,15 @@ func generate(r *prng.R, o *hx.Out) *scenario {
 		} else {
 			d.signers = []int{2 + r.Intn(nSenders)}
 			if r.Chance(1, 4) {
-				d.signers = append(d.signers, 7+r.Intn(2)) // shared co-signer
+				// a co-signer: a pure co-signer (7, 8), or an account that pays for other transactions of the case
+				// (another sender 2..4, a notary depositor 5..6): "merely co-signed by the payer of the new transaction"
+				co := []int{7, 8, 7, 8, 2, 3, 4, 5, 6}[r.Intn(9)]
+				if co != d.signers[0] {
+					d.signers = append(d.signers, co)
+					if co < 7 {
+						o.Count("tx:cosigned-by-a-payer")
+					}
+				}
 			}
 			if r.Chance(1, 12) {
 				d.signers = append(d.signers, 1) // Notary as a non-sender signer
